@@ -319,6 +319,11 @@ macro_rules! macros8_args {
                 cmpseq!("for_each!(x in 0..1, rev(), take(1), flat_map(|_| s..e))", (0..1usize).rev().take(1).flat_map(|_| s..e).collect(), { let mut v = Vec::new(); konst::iter::for_each! {x in 0..1usize, rev(), take(1), flat_map(|_| s..e) => v.push(x); } v });
                 cmpseq!("for_each!(x in 0..1, rev(), enumerate(), flat_map(|_| s..=e))", (0..1usize).rev().enumerate().flat_map(|_| s..=e).collect(), { let mut v = Vec::new(); konst::iter::for_each! {x in 0..1usize, rev(), enumerate(), flat_map(|_| s..=e) => v.push(x); } v });
                 cmpseq!("eval!(0..n, rev(), skip(0), zip(s..e), for_each)", (0..n).rev().skip(0).zip(s..e).map(|p| p.1).collect(), { let mut v = Vec::new(); konst::iter::eval!(0..n, rev(), skip(0), zip(s..e), for_each(|p| v.push(p.1))); v });
+                // the range one layer further down: below a flat_map layer, again as flat_map body and as zip argument
+                cmpseq!("for_each!(x in 0..1, flat_map(|_| 0..1), flat_map(|_| s..e), rev())", (0..1usize).flat_map(|_| 0..1usize).flat_map(|_| s..e).rev().collect(), { let mut v = Vec::new(); konst::iter::for_each! {x in 0..1usize, flat_map(|_| 0..1usize), flat_map(|_| s..e), rev() => v.push(x); } v });
+                cmpseq!("for_each!(x in 0..1, flat_map(|_| 0..1), flat_map(|_| s..=e))", (0..1usize).flat_map(|_| 0..1usize).flat_map(|_| s..=e).collect(), { let mut v = Vec::new(); konst::iter::for_each! {x in 0..1usize, flat_map(|_| 0..1usize), flat_map(|_| s..=e) => v.push(x); } v });
+                cmpseq!("for_each!((i, x) in 0..1, flat_map(|_| 0..n), zip(s..e), rev())", (0..n).zip(s..e).rev().map(|p| p.1).collect(), { let mut v = Vec::new(); konst::iter::for_each! {(_i, x) in 0..1usize, flat_map(|_| 0..n), zip(s..e), rev() => v.push(x); } v });
+                cmpseq!("for_each!((i, x) in 0..1, flat_map(|_| 0..n), rev(), zip(s..e))", (0..n).rev().zip(s..e).map(|p| p.1).collect(), { let mut v = Vec::new(); konst::iter::for_each! {(_i, x) in 0..1usize, flat_map(|_| 0..n), rev(), zip(s..e) => v.push(x); } v });
                 if s > <$T>::MAX - 4 && e == <$T>::MIN {
                     let k = (<$T>::MAX as i32 - s as i32) as usize;
                     cmpseq!("for_each!((i, x) in 0..k, zip(s..))", (0..k).zip(s..).map(|p| p.1).collect(), { let mut v = Vec::new(); konst::iter::for_each! {(_i, x) in 0..k, zip(s..) => v.push(x); } v });
@@ -421,7 +426,7 @@ pub fn run(tier: Tier, rep: &mut Report) -> (String, String) {
     rep.traces = rep.transitions;
     (
         "state = (iterator type in {RangeIter, RangeIterRev, RangeInclusiveIter, RangeInclusiveIterRev}, start, end) read through the __verif_bounds hook; transitions = next and next_back of every state; oracle = the std range built from alpha(state) stepped the same way: yielded value and alpha(post-state) must agree (bisimulation; complete for u8/i8 because every pair is a state and the set is closed under both transitions); RangeFromIter: every start < MAX; macros for_each!/eval!/for_range!/collect_const! must yield std's sequence; non-trivial = states touching MIN/MAX or (nearly) empty".into(),
-        format!("u8, i8: all 65536 (start,end) pairs x 4 iterator types (complete graph) + iteration macros over all pairs, with the range as the source (9 forms) and as a zip argument / flat_map body in forward and reversed chains (9 forms, plus `s..` near MAX); u16..u128, i16..i128, usize, isize: closure to depth {depth} from all pairs over {{MIN,MIN+1,MIN+2,-2,-1,0,1,2,MAX-2,MAX-1,MAX}}; char: closure to depth {depth} from pairs over {{0,1,2,D7FD..D7FF,E000..E002,10FFFD..10FFFF}}; collect_const! on 12 boundary ranges at compile time; hook-independent history trees (values only) on all ranges of length <= min(depth,9) starting at each boundary value for u8,i8,u16,i32,u64,i128,usize,char"),
+        format!("u8, i8: all 65536 (start,end) pairs x 4 iterator types (complete graph) + iteration macros over all pairs, with the range as the source (9 forms) and as a zip argument / flat_map body in forward and reversed chains, also one flat_map layer further down (13 forms, plus `s..` near MAX); u16..u128, i16..i128, usize, isize: closure to depth {depth} from all pairs over {{MIN,MIN+1,MIN+2,-2,-1,0,1,2,MAX-2,MAX-1,MAX}}; char: closure to depth {depth} from pairs over {{0,1,2,D7FD..D7FF,E000..E002,10FFFD..10FFFF}}; collect_const! on 12 boundary ranges at compile time; hook-independent history trees (values only) on all ranges of length <= min(depth,9) starting at each boundary value for u8,i8,u16,i32,u64,i128,usize,char"),
     )
 }
 
